@@ -72,6 +72,9 @@ pub struct Model {
     pub lost_cb: BTreeSet<usize>,
     /// ids of packets whose callback did not reach the contract yet has been force-recovered etc.
     pub reckless: bool,
+    /// in-flight transfers the admin re-sent by force: the scheduler makes them fail, and the ledgers treat
+    /// them as already refunded (DESIGN 12.3 as built)
+    pub doomed: BTreeSet<usize>,
 }
 
 #[derive(Clone, Debug)]
@@ -310,6 +313,7 @@ impl Engine {
             recovered: BTreeSet::new(),
             lost_cb: BTreeSet::new(),
             reckless: false,
+            doomed: BTreeSet::new(),
         };
         Engine {
             w,
@@ -495,7 +499,7 @@ impl Engine {
             if p.sender != s || p.denom != denom {
                 continue;
             }
-            if p.state == PState::Refunded {
+            if p.state == PState::Refunded || self.m.doomed.contains(&p.id) {
                 refunded += p.amount as i128;
             }
             if p.origin == Origin::Recover {
@@ -592,7 +596,7 @@ impl Engine {
             .st
             .packets
             .iter()
-            .filter(|p| p.sender == s && p.denom == ibc && p.state != PState::Refunded)
+            .filter(|p| p.sender == s && p.denom == ibc && p.state != PState::Refunded && !self.m.doomed.contains(&p.id))
             .map(|p| p.amount as i128)
             .sum();
         let fresh = not_refunded + refundable_ibc.max(0);
@@ -633,12 +637,15 @@ impl Engine {
         // (c) cannot be negative: re-sending more than was refunded takes tokens backing other claims
         let owed = owed_a + post.fees as i128 + refunded_ibc.max(0);
         let unbacked = if self.known_c02_sweep { self.m.swept as i128 } else { 0 };
-        if bal != owed - unbacked {
+        // a reckless forced recovery pays a re-send out of whatever the contract holds: solvency is void from then on
+        if self.m.reckless {
+            self.stats.probe("conservation_checks_off_after_reckless_recovery");
+        } else if bal != owed - unbacked {
             self.vo("C02", "balance_eq_owed", format!("contract holds {} but owes batches {} + fees {} + refundable {} (unbacked swept {})", bal, owed_a, post.fees, refunded_ibc, self.m.swept));
         } else if self.m.swept > 0 {
             *self.stats.known.entry("C02 ownerless-stake sweep credits total_fees with tokens the contract does not hold").or_insert(0) += 1;
         }
-        if refunded_ibc < 0 {
+        if refunded_ibc < 0 && !self.m.reckless {
             self.vo("C07", "resent_more_than_refunded", format!("staked-asset re-sent exceeds refunded by {}", -refunded_ibc));
         }
 
@@ -650,10 +657,10 @@ impl Engine {
         let own_lst = self.w.st.bank.balance(&s, &lst) as i128;
         let pend_total = post.pending.as_ref().map(|b| b.total).unwrap_or(0) as i128;
         let refunded_lst = self.refunded_not_resent(&lst);
-        if own_lst != pend_total + refunded_lst.max(0) {
+        if own_lst != pend_total + refunded_lst.max(0) && !self.m.reckless {
             self.vo("C03", "own_lst_balance", format!("contract holds {} LST but pending batch has {} and refundable LST is {}", own_lst, pend_total, refunded_lst));
         }
-        if refunded_lst < 0 {
+        if refunded_lst < 0 && !self.m.reckless {
             self.vo("C07", "resent_more_than_refunded", format!("LST re-sent exceeds refunded by {}", -refunded_lst));
         }
 
